@@ -390,8 +390,9 @@ def run (cfg : Cfg) : Nat → G → Ctx → Nat → St → Option (Out × St)
       | some (o, st) =>
         match o.err with
         | some e =>
+          -- a whitespace error keeps its position (fix D10); any other error moves past the whitespace
           let (errPos, _) := skipWhitespaces cfg.file e.pos m
-          some (⟨o.res, o.cp, some (if errPos > e.pos then ⟨errPos, e.kind⟩ else e)⟩, st)
+          some (⟨o.res, o.cp, some (if !e.kind.isWs && errPos > e.pos then ⟨errPos, e.kind⟩ else e)⟩, st)
         | none =>
           let (res', ws) := setRposRes cfg.file m o.res
           match ws with
